@@ -60,6 +60,23 @@ Definition py_index {A} (l : list A) (i : Z) : result A :=
   if j <? 0 then Raise IndexError 0
   else match nth_error l (Z.to_nat j) with Some v => Ret v | None => Raise IndexError 0 end.
 
+(* l[a:b] : slices never raise; negative bounds count from the end, both are clipped to 0..len *)
+Definition py_slice {A} (l : list A) (a b : Z) : list A :=
+  let n := py_len l in
+  let clip := fun i => Z.min n (if i <? 0 then Z.max 0 (i + n) else i) in
+  firstn (Z.to_nat (clip b - clip a)) (skipn (Z.to_nat (clip a)) l).
+
+(* zip(a, b, strict=True): ValueError when the lengths differ; zip(a, b, c, .., strict=True) is nested to the left *)
+Fixpoint py_zip_strict {A B} (a : list A) (b : list B) : result (list (A * B)) :=
+  match a, b with
+  | [], [] => Ret []
+  | x :: a', y :: b' => bind (py_zip_strict a' b') (fun r => Ret ((x, y) :: r))
+  | _, _ => Raise ValueError 0
+  end.
+
+(* x is None, for an Optional value *)
+Definition py_is_none {A} (o : option A) : bool := match o with None => true | Some _ => false end.
+
 (* first, *rest = l : raises ValueError ("not enough values to unpack") on an empty l *)
 Definition py_uncons {A} (l : list A) : result (A * list A) :=
   match l with [] => Raise ValueError 0 | x :: r => Ret (x, r) end.
